@@ -8,6 +8,7 @@ import Drv.Order
 import Drv.Adapt
 import Drv.Verify
 import Drv.Method
+import Drv.Decl
 /-! Line-protocol driver: `driver <layer> [args]` reads operation lines on stdin and prints one
     answer line per operation, computed by the executable model definitions. -/
 def main (args : List String) : IO Unit := do
@@ -22,4 +23,5 @@ def main (args : List String) : IO Unit := do
   | "adapt" :: rest => Drv.Adapt.main rest
   | "verify" :: _ => Drv.Verify.main
   | "method" :: _ => Drv.Method.main
+  | "decl" :: _ => Drv.Decl.main
   | _ => IO.eprintln "usage: driver <layer>"
